@@ -193,7 +193,49 @@ def check_trapped(f):
     return [] if rec == ('E', '#NAME?') else [(f, None, "('E', '#NAME?')", repr(rec))]
 
 
-CHECKERS = {'trapped': check_trapped, 'name': check_name, 'documented': check_documented, 'unknown': check_unknown, 'calls': check_calls}
+def check_rebinding(seed):
+    """registrations made AFTER a name has already been used on the same parser take effect: a custom function registered
+    over a built-in that was already called, a custom function replaced by another one, a variable re-bound, and a custom
+    function / variable registered after the name evaluated to #NAME?"""
+    import hotxlfp
+    rng = random.Random(seed)
+    out = []
+    builtins = ['SUM', 'MAX', 'IF', 'LEN', 'ABS', 'AND', 'ROUND', 'CONCATENATE', 'PI', 'TRUE']
+    for _ in range(12):
+        p = hotxlfp.Parser()
+        n = rng.choice(builtins)
+        f = '%s(2,3)' % n if n not in ('PI', 'TRUE', 'LEN', 'ABS') else ('%s()' % n if n in ('PI', 'TRUE') else '%s(2)' % n)
+        warm = [p.parse(f) for _ in range(rng.randint(1, 3))]
+        calls = []
+        p.set_function(n, lambda *a: calls.append(a) or 1000)
+        r = p.parse(f)
+        if r != {'result': 1000, 'error': None} or len(calls) != 1:
+            out.append(('%s evaluated %d time(s) as a built-in, then set_function(%r, f), then %s' % (f, len(warm), n, f), None,
+                        "{'result': 1000, 'error': None} with one call of f", repr((r, calls))))
+        calls2 = []
+        p.set_function(n, lambda *a: calls2.append(a) or 2000)
+        r = p.parse('1+' + f)
+        if r != {'result': 2001, 'error': None} or len(calls2) != 1 or len(calls) != 1:
+            out.append(('set_function(%r) a second time' % n, None, '2001, the new function called once', repr((r, calls, calls2))))
+    p = hotxlfp.Parser()
+    seq = []
+    for name in ('vv', 'TRUE', 'NULL', 'ww'):
+        before = p.parse(name)
+        for val in (5, 0, 'txt', None, False, [1, 2]):
+            p.set_variable(name, val)
+            r = p.parse(name)
+            if r != {'result': val, 'error': None}:
+                out.append(('set_variable(%r, %r) after earlier evaluations of %s' % (name, val, name), None, repr(val), repr(r)))
+    q = hotxlfp.Parser()
+    if q.parse('LATE(1)')['error'] != '#NAME?':
+        out.append(('LATE(1) unregistered', None, '#NAME?', repr(q.parse('LATE(1)'))))
+    q.set_function('LATE', lambda *a: 7)
+    if q.parse('LATE(1)') != {'result': 7, 'error': None}:
+        out.append(('LATE registered after it evaluated to #NAME?', None, '7', repr(q.parse('LATE(1)'))))
+    return out
+
+
+CHECKERS = {'rebinding': check_rebinding, 'trapped': check_trapped, 'name': check_name, 'documented': check_documented, 'unknown': check_unknown, 'calls': check_calls}
 
 
 def thaw_tree(t):
@@ -258,6 +300,7 @@ def explore(ctx):
     unk = unknown_items(rng, 20000 if big else 2000, 5 if big else 4)
     work += [('unknown', it) for it in unk]
     work += [('trapped', t % u) for t in TRAPS for u in UNKNOWNS]
+    work += [('rebinding', ctx.seed * 10 + k) for k in range(4)]
     g = refgen.Gen(rng, HOST)
     calls = []
     for _ in range(10000 if big else 1500):
@@ -301,7 +344,7 @@ def search(ctx, proof, res):
         for vi in range(0, len(values()), 3):
             work.append(('name', (n, vi)))
     work += [('unknown', it) for it in unknown_items(rng, 6000, 4)]
-    work += [('trapped', t % u) for t in TRAPS for u in UNKNOWNS]
+    work += [('trapped', t % u) for t in TRAPS for u in UNKNOWNS] + [('rebinding', k) for k in range(4)]
     g = refgen.Gen(rng, HOST)
     for _ in range(4000):
         t = g.any(rng.randint(1, 4))
